@@ -350,7 +350,36 @@ func c18Directory(c *Ctx) {
 		c.Inconclusive("GetTLSConfig: " + m)
 	}
 	c.Count("stranger_certificates_prepared", int64(len(strangers)))
+	// a conforming client exercises every handler of the directory inside its mTLS session - including a StartTLS
+	// extended request - between the offending rounds: whatever those handlers do must not weaken the gate
+	battery := func(n int) {
+		cl, err := dialRaw(addr, good)
+		if err != nil {
+			c.Violate("a conforming TLS client was refused", "testdirectory WithMTLS: "+err.Error(), nil)
+			return
+		}
+		defer cl.Close()
+		dn := fmt.Sprintf("cn=conforming-battery-%d,ou=people,dc=example,dc=org", n)
+		fr := c18Frames(dn)
+		for _, op := range []string{"add", "bind", "search", "modify", "delete", "extended"} {
+			cl.Send(fr[op])
+			for {
+				m, err := cl.ReadMsg(patience)
+				if err != nil || m.Op.Tag != sber.AppSearchResultEntry {
+					break
+				}
+			}
+		}
+		cl.Send(sber.Message(50, sber.ExtendedRequest([]byte(sber.OIDStartTLS), nil, false), nil).Encode())
+		cl.C.SetReadDeadline(time.Now().Add(500 * time.Millisecond))
+		sber.ReadFrame(cl.br)
+		c.Count("conforming_handler_batteries", 1)
+	}
 	for rep := 0; rep < reps; rep++ {
+		if rep > 0 {
+			battery(rep)
+			time.Sleep(50 * time.Millisecond)
+		}
 		for _, bh := range append(c18Behaviours(true, pki, "add"), strangers...) {
 			tag := fmt.Sprintf("cn=offender-%d,ou=people,dc=example,dc=org", c18Tag.Add(1))
 			offTags[tag] = bh.Name
